@@ -95,7 +95,7 @@ func c06Judge(c *mon.Ctx, arrA, arrB []any, wrap int, scalarOnly bool) {
 			c.Feature("b_is_patch_result")
 		}
 	}
-	d := ReadJ(aText).Diff(B)
+	d := operand(c, aText, "a", 0.2)().Diff(B)
 	hs := Hunks(d)
 	diffFeatures(c, hs)
 	if len(hs) > 0 {
@@ -158,6 +158,31 @@ func viaPatch(r *gen.RNG, b any) (jd.JsonNode, bool) {
 	return P, true
 }
 
+// operand returns a factory of fresh jd values for the document text: freshly
+// parsed, or (with probability p, when such a build exists) the very same
+// document as the in-memory result of a Patch, whose nodes are the ones
+// Patch builds and leaves behind.
+func operand(c *mon.Ctx, text string, side string, p float64) func() jd.JsonNode {
+	fresh := func() jd.JsonNode { return ReadJ(text) }
+	if !c.R.Chance(p) {
+		return fresh
+	}
+	seed := c.R.U64()
+	v := ref.MustJSON(text)
+	if ref.IsVoid(v) {
+		return fresh
+	}
+	if _, ok := viaPatch(gen.New(seed), v); !ok {
+		return fresh
+	}
+	c.Input(side+"_built_by", "Patch (not re-parsed)")
+	c.Feature(side + "_is_patch_result")
+	return func() jd.JsonNode {
+		P, _ := viaPatch(gen.New(seed), v)
+		return P
+	}
+}
+
 // fillEmptyArrays puts elements into every empty array of v.
 func fillEmptyArrays(r *gen.RNG, v any) any {
 	switch t := v.(type) {
@@ -169,7 +194,7 @@ func fillEmptyArrays(r *gen.RNG, v any) any {
 			t[i] = fillEmptyArrays(r, t[i])
 		}
 	case map[string]any:
-		for k := range t {
+		for _, k := range ref.SortedKeys(t) {
 			t[k] = fillEmptyArrays(r, t[k])
 		}
 	}
@@ -183,7 +208,7 @@ func init() {
 			"random long arrays (<=40) over tiny alphabets, arrays of 100-600 elements with a few localised edits, arrays mixing scalars with aligned same-kind containers that differ inside, and random nested documents (context only); " +
 			"oracle: textbook LCS DP for the edit counts, stepwise reference interpretation for the context lines; non-trivial = non-empty diff; distinct = distinct (a, b)",
 		Floors: map[string]int{"index_hunks": 20000, "before_is_element": 5000, "before_is_boundary": 5000, "after_is_element": 5000, "after_is_boundary": 5000,
-			"long_array": 2000, "very_long_array": 1000, "b_is_patch_result": 5000, "array_over_1024": 30, "mixed_recursed": 500, "hunk_nested_arrays": 2000},
+			"long_array": 2000, "very_long_array": 1000, "b_is_patch_result": 5000, "a_is_patch_result": 5000, "array_over_1024": 30, "mixed_recursed": 500, "hunk_nested_arrays": 2000},
 		Assumptions: []string{
 			"minimality is a count against the optimum (len - LCS on each side), not identity of the script: several optimal scripts exist",
 			"for arrays holding containers only the upper bound is demanded (recursing removes fewer elements than an LCS over whole values)",
@@ -203,8 +228,13 @@ func init() {
 		})
 	}
 	p.Strata = append(p.Strata, mon.Stratum{
-		Name:       "exh-k2-n7/root",
-		N:          func(t mon.Tier) int { if t == mon.Thorough { return len(arraysK2N7) * len(arraysK2N7) }; return 0 },
+		Name: "exh-k2-n7/root",
+		N: func(t mon.Tier) int {
+			if t == mon.Thorough {
+				return len(arraysK2N7) * len(arraysK2N7)
+			}
+			return 0
+		},
 		Exhaustive: always,
 		Run: func(c *mon.Ctx, i int) {
 			c06Judge(c, arraysK2N7[i/len(arraysK2N7)], arraysK2N7[i%len(arraysK2N7)], 0, true)
